@@ -42,6 +42,39 @@ def _clamp_call(e: ast.AST) -> Optional[ast.Call]:
     return None
 
 
+def _by_key(fn, key: str) -> Set[str]:
+    """locals of fn bound to the `<key>` entry of some mapping: x = m.get("<key>", ..) / m["<key>"] / m.setdefault("<key>", ..)"""
+    out: Set[str] = set()
+    for x in walk_no_defs(fn.node):
+        if isinstance(x, (ast.Assign, ast.AnnAssign)) and x.value is not None:
+            v = x.value
+            if isinstance(v, ast.BoolOp) and v.values:
+                v = v.values[0]
+            hit = (isinstance(v, ast.Call) and isinstance(v.func, ast.Attribute) and v.func.attr in ("get", "setdefault") and v.args and const_str(v.args[0]) == key) or (
+                isinstance(v, ast.Subscript) and const_str(v.slice) == key)
+            if hit:
+                for t in (x.targets if isinstance(x, ast.Assign) else [x.target]):
+                    if isinstance(t, ast.Name):
+                        out.add(t.id)
+    return out or {key}
+
+
+def _edge_records(fn, edges: Set[str]) -> Set[str]:
+    """locals holding one edge record: loop value of <edges>.items(), <edges>.get(k) / <edges>[k], or a literal stored as <edges>[k] = r"""
+    out: Set[str] = set()
+    for x in walk_no_defs(fn.node):
+        if isinstance(x, ast.For) and isinstance(x.iter, ast.Call) and call_tail(x.iter) == "items" and src(x.iter.func.value) in edges and isinstance(x.target, ast.Tuple) and len(x.target.elts) == 2 \
+                and isinstance(x.target.elts[1], ast.Name):
+            out.add(x.target.elts[1].id)
+        if isinstance(x, ast.Assign) and len(x.targets) == 1:
+            t, v = x.targets[0], x.value
+            if isinstance(t, ast.Name) and ((isinstance(v, ast.Call) and call_tail(v) == "get" and src(v.func.value) in edges) or (isinstance(v, ast.Subscript) and src(v.value) in edges)):
+                out.add(t.id)
+            if isinstance(t, ast.Subscript) and src(t.value) in edges and isinstance(v, ast.Name):
+                out.add(v.id)
+    return out
+
+
 def rule_bound(ctx) -> None:
     fn = ctx.func(GEL + ":observe_retrieval")
     cfg = ctx.cfg(fn)
@@ -77,7 +110,7 @@ def rule_bound(ctx) -> None:
                       f"clamp bounds `{src(c.args[1])}`, `{src(c.args[2])}` are not the configured graph.update.clamp_min / clamp_max")
     # a newly created record (literal weight) must reach a clamped store before the iteration ends
     creates = [n for n in cfg.nodes if n.kind == "stmt" and isinstance(n.ast, ast.Assign) and isinstance(n.ast.value, ast.Name)
-               and any(isinstance(t, ast.Subscript) and src(t.value) == "edges" for t in n.ast.targets) and n in cfg.reachable_from_entry()]
+               and any(isinstance(t, ast.Subscript) and src(t.value) in _by_key(fn, "edges") for t in n.ast.targets) and n in cfg.reachable_from_entry()]
     for cn in creates:
         loop_heads = [h for h in cfg.nodes if h.kind == "iter"]
         p = cfg.path([cn], lambda x: x is cfg.exit or x in loop_heads, avoid=lambda x: x in stores, edge_ok=no_exc, include_start=False)
@@ -156,11 +189,16 @@ def rule_decay(ctx) -> None:
                       "factor = c ** (dt / half_life) with 0<c<1, dt = max(0, .) >= 0 and half_life > 0 on this branch: factor in (0, 1]",
                       f"decay factor is not provably in [0,1]: {why} (a negative dt or half-life makes the factor exceed 1: a tick increases magnitudes)")
     # deletion queue: exactly the |w2| < floor edges, deleted after the iteration
-    apps = [n for n in cfg.nodes if n.kind == "stmt" and any(call_tail(c) == "append" and "delete" in src(c.func) for c in node_calls(n))]
+    edges_n = _by_key(fn, "edges")
+    floor_n = {d.name for d in rd.all_defs if d.kind == "assign" and d.value is not None and any(const_str(z) == "floor" for z in ast.walk(d.value))}
+    # the deletion queue: the list a later loop walks while removing from the edge map
+    queues = {src(st.iter) for st in walk_no_defs(fn.node) if isinstance(st, ast.For) and any(isinstance(y, ast.Call) and call_tail(y) in ("pop", "__delitem__") and isinstance(y.func, ast.Attribute)
+              and src(y.func.value) in edges_n for y in ast.walk(st)) and isinstance(st.iter, ast.Name)}
+    apps = [n for n in cfg.nodes if n.kind == "stmt" and any(call_tail(c) == "append" and src(c.func.value) in queues for c in node_calls(n))]
     ctx.floor("C18.DECAY", "deletion-queue appends", len(apps), 1)
     stored_names = {src(n.ast.value) for n in stores}
     def _floor_fact(a: str) -> bool:
-        return any(a == f"abs({nm}) < floor" for nm in stored_names)
+        return any(a == f"abs({nm}) < {fl}" for nm in stored_names for fl in floor_n)
     for n in apps:
         facts = cfg.facts(n)
         ok = any(pol and _floor_fact(a) for a, pol in facts)
@@ -172,12 +210,12 @@ def rule_decay(ctx) -> None:
         ok = any((not pol) and _floor_fact(a) for a, pol in facts)
         ctx.check(ok, "C18.DECAY", f"{fn.qual}/store-only-above-floor", fn.loc(n.ast), "weights are stored only for edges that stay (abs(w2) >= floor)",
                   "a decayed weight is stored outside the not-below-floor branch")
-    pops = [(n, c) for n in cfg.nodes for c in node_calls(n) if call_tail(c) in ("pop", "__delitem__") and src(c.func).startswith("edges")]
+    pops = [(n, c) for n in cfg.nodes for c in node_calls(n) if call_tail(c) in ("pop", "__delitem__") and isinstance(c.func, ast.Attribute) and src(c.func.value) in edges_n]
     dels = [n for n in cfg.nodes if n.kind == "stmt" and isinstance(n.ast, ast.Delete)]
     ctx.floor("C18.DECAY", "edge deletions in tick", len(pops) + len(dels), 1)
     for n, c in pops:
-        in_edges_loop = any(isinstance(st, ast.For) and "edges" in src(st.iter) for st, part in enclosing(ctx.prog, fn, c))
-        over_queue = any(isinstance(st, ast.For) and "delete" in src(st.iter) for st, part in enclosing(ctx.prog, fn, c))
+        in_edges_loop = any(isinstance(st, ast.For) and any(isinstance(y, ast.Name) and y.id in edges_n for y in ast.walk(st.iter)) for st, part in enclosing(ctx.prog, fn, c))
+        over_queue = any(isinstance(st, ast.For) and src(st.iter) in queues for st, part in enclosing(ctx.prog, fn, c))
         ctx.check(over_queue and not in_edges_loop, "C18.DECAY", f"{fn.qual}/delete-after-iteration", fn.loc(c),
                   "edges are removed in a separate loop over the deletion queue", "edges are removed while iterating the edge map / not from the queue")
     # staying inside [clamp_min, clamp_max]: clamp in tick, or the validator guarantees 0 in the interval
@@ -265,7 +303,7 @@ def rule_key(ctx) -> None:
             if n.kind != "stmt" or not isinstance(n.ast, ast.Assign):
                 continue
             for t in n.ast.targets:
-                if isinstance(t, ast.Subscript) and isinstance(t.value, ast.Name) and t.value.id == "edges":
+                if isinstance(t, ast.Subscript) and isinstance(t.value, ast.Name) and t.value.id in _by_key(fn, "edges"):
                     n_ins += 1
                     k = t.slice
                     ok = False
@@ -360,8 +398,14 @@ def rule_orderins(ctx) -> None:
     ctx.check(bool(filt), "C18.ORDERINS", f"{fn.qual}/threshold-filter", fn.loc(), "items are kept only where score >= threshold (NaN fails the test)",
               "no `score >= threshold` filter over the observed items")
     # pair cap pairing: each weight store is followed by cap_left -= 1 and pairs_updated += 1; loops break on cap_left <= 0
-    decs = [n for n in cfg.nodes if n.kind == "stmt" and isinstance(n.ast, ast.AugAssign) and isinstance(n.ast.op, ast.Sub) and src(n.ast.target) == "cap_left"]
-    incs = [n for n in cfg.nodes if n.kind == "stmt" and isinstance(n.ast, ast.AugAssign) and isinstance(n.ast.op, ast.Add) and src(n.ast.target) == "pairs_updated"]
+    # roles: the remaining-pair budget starts at the configured pair cap; the update counter is what the metrics report as pairs_updated
+    rdo = ctx.rd(fn)
+    pc = {d.name for d in rdo.all_defs if d.kind == "assign" and d.value is not None and any(const_str(z) == "pair_cap_per_obs" for z in ast.walk(d.value))}
+    cap_left = {d.name for d in rdo.all_defs if d.kind == "assign" and d.value is not None and any(isinstance(y, ast.Name) and y.id in pc for y in ast.walk(d.value))
+                and any(isinstance(x, ast.AugAssign) and isinstance(x.op, ast.Sub) and src(x.target) == d.name for x in walk_no_defs(fn.node))}
+    upd = {src(v) for dct in walk_no_defs(fn.node) if isinstance(dct, ast.Dict) for k, v in zip(dct.keys, dct.values) if k is not None and const_str(k) == "pairs_updated" and isinstance(v, ast.Name)}
+    decs = [n for n in cfg.nodes if n.kind == "stmt" and isinstance(n.ast, ast.AugAssign) and isinstance(n.ast.op, ast.Sub) and src(n.ast.target) in cap_left]
+    incs = [n for n in cfg.nodes if n.kind == "stmt" and isinstance(n.ast, ast.AugAssign) and isinstance(n.ast.op, ast.Add) and src(n.ast.target) in upd]
     stores = [n for n in cfg.nodes if n.kind == "stmt" and isinstance(n.ast, ast.Assign) and any(_is_weight_store(t) for t in n.ast.targets)]
     heads = [h for h in cfg.nodes if h.kind == "iter"]
     for sn in stores:
@@ -371,11 +415,11 @@ def rule_orderins(ctx) -> None:
                   "each pair update is paired with cap_left -= 1 and pairs_updated += 1 before the next iteration",
                   "a pair update is not counted against the pair cap on some path", ctx.path_witness(fn, p1 or p2))
         facts_ok = any(isinstance(st, ast.For) for st, _ in enclosing(ctx.prog, fn, sn.ast))
-    brk = [n for n in cfg.nodes if n.kind == "stmt" and isinstance(n.ast, ast.Break) and (("cap_left <= 0", True) in cfg.facts(n) or ("cap_left > 0", False) in cfg.facts(n))]
+    brk = [n for n in cfg.nodes if n.kind == "stmt" and isinstance(n.ast, ast.Break) and any((f"{c} <= 0", True) in cfg.facts(n) or (f"{c} > 0", False) in cfg.facts(n) for c in cap_left)]
     ctx.check(len(brk) >= 2, "C18.ORDERINS", f"{fn.qual}/pair-cap-breaks", fn.loc(), f"both pair loops break on cap_left <= 0 ({len(brk)} breaks)",
               "a pair loop no longer stops when the pair cap is exhausted")
-    capdef = [d for d in ctx.rd(fn).all_defs if d.name == "cap_left" and d.kind == "assign"]
-    ctx.check(bool(capdef) and all("pair_cap" in src(d.value) for d in capdef), "C18.ORDERINS", f"{fn.qual}/pair-cap-init", fn.loc(),
+    capdef = [d for d in ctx.rd(fn).all_defs if d.name in cap_left and d.kind == "assign"]
+    ctx.check(bool(capdef) and bool(pc) and all(any(isinstance(y, ast.Name) and y.id in pc for y in ast.walk(d.value)) for d in capdef), "C18.ORDERINS", f"{fn.qual}/pair-cap-init", fn.loc(),
               "cap_left starts at the configured pair cap", "cap_left is not initialised from pair_cap")
 
 
@@ -410,7 +454,7 @@ def rule_scope(ctx) -> None:
                 if isinstance(recv, ast.Name):
                     for d in rd.all_defs:
                         if d.name == recv.id and d.kind == "assign" and isinstance(d.value, ast.Call) and call_tail(d.value) == "setdefault" \
-                                and src(d.value.func.value) == "meta":
+                                and src(d.value.func.value) in _by_key(fn, "meta"):
                             okr = True
                 if okr:
                     n_app += 1
@@ -432,34 +476,36 @@ def rule_scope(ctx) -> None:
         if kind in ("pop", "clear", "remove", "del", "popitem", "discard"):
             ctx.violation("C18.SCOPE", f"{fn.qual}/destructive:{kind}", fn.loc(node), f"promotion removes graph content: `{src(node)[:50]}`")
     nstores = [n for n in cfg.nodes if n.kind == "stmt" and isinstance(n.ast, ast.Assign) and any(
-        isinstance(t, ast.Subscript) and src(t.value) == "nodes" for t in n.ast.targets)]
+        isinstance(t, ast.Subscript) and src(t.value) in _by_key(fn, "nodes") for t in n.ast.targets)]
     ctx.floor("C18.SCOPE", "concept node insertion", len(nstores), 1)
     for n in nstores:
         t = [t for t in n.ast.targets if isinstance(t, ast.Subscript)][0]
         k = src(t.slice)
         facts = cfg.facts(n)
-        ok = (f"{k} not in nodes", True) in facts or (f"{k} in nodes", False) in facts
+        ok = any((f"{k} not in {x}", True) in facts or (f"{k} in {x}", False) in facts for x in _by_key(fn, "nodes"))
         ctx.check(ok, "C18.SCOPE", f"{fn.qual}/concept-insert-if-absent", fn.loc(n.ast), "a concept node is inserted only if absent (existing nodes are never overwritten)",
                   "nodes[...] is assigned without the `not in nodes` guard: promotion overwrites an existing node / is not idempotent")
     # counter increments only under the same guard
     for n in cfg.nodes:
         if n.kind == "stmt" and isinstance(n.ast, ast.Assign) and any(const_str(getattr(t, "slice", None)) == "concept_nodes_count" for t in n.ast.targets if isinstance(t, ast.Subscript)):
             facts = cfg.facts(n)
-            ok = any(a.endswith("not in nodes") and p for a, p in facts) or any(a.endswith(" in nodes") and not a.endswith("not in nodes") and not p for a, p in facts)
+            nn = _by_key(fn, "nodes")
+            ok = any(any(a.endswith(f"not in {x}") for x in nn) and p for a, p in facts) or any(any(a.endswith(f" in {x}") and not a.endswith(f"not in {x}") for x in nn) and not p for a, p in facts)
             ctx.check(ok, "C18.SCOPE", f"{fn.qual}/concept-count-guarded", fn.loc(n.ast), "the concept counter moves only when a node was inserted",
                       "concept_nodes_count is bumped on every call: promotion is not idempotent")
     # stored values do not depend on previous edge contents (idempotent by shape)
     for n in cfg.nodes:
         if n.kind == "stmt" and isinstance(n.ast, ast.Assign):
             for t in n.ast.targets:
-                if isinstance(t, ast.Subscript) and isinstance(t.value, ast.Name) and t.value.id == "rec":
-                    reads_prev = any(isinstance(x, ast.Name) and x.id == "rec" for x in ast.walk(n.ast.value))
+                if isinstance(t, ast.Subscript) and isinstance(t.value, ast.Name) and t.value.id in _edge_records(fn, _by_key(fn, "edges")):
+                    reads_prev = any(isinstance(x, ast.Name) and x.id == t.value.id for x in ast.walk(n.ast.value))
                     ctx.check(not reads_prev, "C18.SCOPE", f"{fn.qual}/edge-field-idempotent:{src(t)[:20]}", fn.loc(n.ast),
                               "attached edge fields are set to values independent of their previous content",
                               f"`{src(n.ast)[:60]}` derives the new value from the old one: applying a promotion twice changes the graph")
     # concept<->member edges only
     for n, c in find_calls(ctx, fn, lambda c, nm: call_tail(c) == "_edge_key"):
-        ok = len(c.args) == 2 and src(c.args[0]) == "cid"
+        cids = {src(t.slice) for n2 in cfg.nodes if n2.kind == "stmt" and isinstance(n2.ast, ast.Assign) for t in n2.ast.targets if isinstance(t, ast.Subscript) and src(t.value) in _by_key(fn, "nodes")}
+        ok = len(c.args) == 2 and src(c.args[0]) in cids
         ctx.check(ok, "C18.SCOPE", f"{fn.qual}/concept-member-edges", fn.loc(c), "promotion only keys edges (concept id, member)",
                   f"promotion touches an edge not anchored at the concept node: {src(c)}")
     # candidate / pure functions
